@@ -10,6 +10,10 @@ from harness import common, par, refwarc, warcwork
 def parse_files(obs, part, prop, replay):
     '''Parse every archive file strictly. Returns {filename: [records]} or None.'''
     out = {}
+    if obs.get('close_error'):
+        # closing the recorder (last records, moving the finished files) failed: the archive set is not what a run leaves
+        part.violation('recorder-close-raised/' + obs['close_error'].split(':')[0], {'error': obs['close_error'], 'config': obs['config']}, replay)
+        return None
     for name, data in obs['files'].items():
         if name.endswith('.warc.gz') or name.endswith('.warc'):
             try:
@@ -257,6 +261,12 @@ def oracle_c07(obs, part, replay):
     cfg = obs['config']
     if not cfg['cdx']:
         return
+    if obs.get('duplicate_names'):
+        # a CDX line names its file; two files of that name (one moved away, one written anew) make the line ambiguous
+        part.violation('two-archive-files-with-one-name', {'names': obs['duplicate_names'], 'config': cfg}, replay)
+        return
+    if cfg.get('move'):
+        part.count('cdx_cases_with_moved_files')
     files = parse_files(obs, part, 'C07', replay)
     if files is None:
         # some archive file is not a record sequence as a whole (C05's subject).  C07's own clause can still be decided
